@@ -183,27 +183,35 @@ def isEmptyOpt : Option (List UUID) → Bool
   | none => true
   | some l => l.isEmpty
 
+/-- the rows (among the candidates) matching one condition; conditions on
+    `_uuid` with `==`/`includes` are answered by a direct lookup -/
+def condMatches (c : Cache) (matching : Option (List UUID)) (cnd : Cond) : Except String (List UUID) :=
+  if cnd.col = "_uuid" ∧ (cnd.fn = .eq ∨ cnd.fn = .includes) then
+    match cnd.val with
+    | .atom (.uuid u) => .ok (if (get? c.rows u).isSome then [u] else [])
+    | _ => .error "panic: not a uuid"
+  else matchCond c cnd (match matching with | some m => m | none => (keys c.rows).eraseDups)
+
+def nextMatching (matching : Option (List UUID)) (mc : List UUID) : Option (List UUID) :=
+  match matching with
+  | none => some mc
+  | some m => intersectSets m mc
+
 /-- the refinement loop of `RowsByCondition` -/
 def refine (c : Cache) (matching : Option (List UUID)) : List Cond → Except String (Option (List UUID))
   | [] => .ok matching
-  | cnd :: rest => do
-    let mc ←
-      if cnd.col = "_uuid" ∧ (cnd.fn = .eq ∨ cnd.fn = .includes) then
-        match cnd.val with
-        | .atom (.uuid u) => pure (if (get? c.rows u).isSome then [u] else [])
-        | .atom (.str u) => pure (if (get? c.rows u).isSome then [u] else [])
-        | _ => .error "panic: not a uuid"
-      else matchCond c cnd (match matching with | some m => m | none => (keys c.rows).eraseDups)
-    let m := match matching with
-      | none => some mc
-      | some m => intersectSets m mc
-    if isEmptyOpt m then .ok m else refine c m rest
+  | cnd :: rest =>
+    match condMatches c matching cnd with
+    | .error e => .error e
+    | .ok mc =>
+      if isEmptyOpt (nextMatching matching mc) then .ok (nextMatching matching mc)
+      else refine c (nextMatching matching mc) rest
 
 /-- `RowCache.RowsByCondition`: uuids of the matching rows -/
 def rowsByCondition (c : Cache) (zeroRow : Row) (conds : List Cond) : Except String (List UUID) :=
   if conds.isEmpty then .ok (keys c.rows).eraseDups
-  else do
-    let m ← refine c (prefilter c zeroRow conds) conds
-    pure (m.getD [])
+  else match refine c (prefilter c zeroRow conds) conds with
+    | .error e => .error e
+    | .ok m => .ok (m.getD [])
 
 end Ovsdb
